@@ -105,12 +105,35 @@ def cfgs(tier):
     return out
 
 
-def chunk_script(items):
+def ci_commands(cfg):
+    """the compiled-in equivalent of a one-line configuration (None if the line has none)"""
+    if cfg is None or not cfg.startswith(b'[snoopy]\n') or cfg.count(b'\n') != 2:
+        return None
+    line = cfg.split(b'\n')[1]
+    if b' = ' not in line:
+        return None
+    name, val = line.split(b' = ', 1)
+    if name == b'message_format':
+        return ['defformat ' + H.hx(val)]
+    if name == b'filter_chain':
+        return ['defchain ' + H.hx(val[:8000])]
+    if name == b'syslog_ident':
+        return ['defident ' + H.hx(val[:8000]), 'defoutput ' + H.hx(b'devlog')]
+    if name == b'output':
+        o, _, a = val.partition(b':')
+        return ['defoutput ' + H.hx(o[:250]), 'defoutarg ' + H.hx(a[:8000])]
+    return None
+
+
+def chunk_script(items, compiled_in=False):
     lines = ['sinks pipe', 'lean 1', 'noentry', 'errno -1']
     n = 0
     plan = []
     for cfg, mode in items:
-        lines.append('cfgnone' if cfg is None else 'cfg ' + H.hx(cfg))
+        if compiled_in:
+            lines += ['defformat ' + H.hx(b'%{cmdline}'), 'defchain h', 'defident ' + H.hx(b'snoopy'), 'defoutput ' + H.hx(b'devlog'), 'defoutarg h'] + ci_commands(cfg)
+        else:
+            lines.append('cfgnone' if cfg is None else 'cfg ' + H.hx(cfg))
         combos = list(itertools.product(EXEC_INPUTS, ENVS)) if mode == 'all' else [('normal', 'normal'), ('argvNULL', 'null')]
         for ik, ek in combos:
             fn, p, a, e = EXEC_INPUTS[ik]
@@ -121,13 +144,14 @@ def chunk_script(items):
 
 
 def run_chunk(args):
-    h, items, w = args
+    h, items, w = args[:3]
+    ci = len(args) > 3 and args[3] == 'ci'
     done, aborts = 0, []
     results = []
     pos = 0
     restarts = 0
     while pos < len(items) and restarts < 15:
-        script, plan = chunk_script(items[pos:])
+        script, plan = chunk_script(items[pos:], compiled_in=ci)
         r = H.run_script(h, w, script, env_extra={'VERIF_HEXMAX': '0'}, timeout=300)
         calls = [l for l in r['lines'] if 'call' in l]
         results += list(zip(plan, calls))
@@ -195,27 +219,37 @@ def run(ck):
     nchunks = 48
     size = (len(items) + nchunks - 1) // nchunks
     jobs = [(v['h_exec'], items[i:i + size], os.path.join(ck.workdir, 'p%d' % (i // size))) for i in range(0, len(items), size)]
+    # other builds of the same sources: non-thread-safe (every one-line configuration), configuration compiled in (every line that has a
+    # compiled-in equivalent: message format, filter chain, syslog ident, default output)
+    single = [it for it in items if it[0] is None or it[0].count(b'\n') <= 3]
+    vn = H.build_exec_harness('c02-nots-asan', ts=False)
+    vci = H.build_exec_harness('c02ci-ts-asan', compiled_in=True)
+    cis = [(c, 'one') for c, m in single if ci_commands(c)]
+    for k in range(8):
+        jobs.append((vn['h_exec'], [(c, 'one') for c, m in single[k::8]], os.path.join(ck.workdir, 'n%d' % k), 'nots'))
+        jobs.append((vci['h_exec'], cis[k::8], os.path.join(ck.workdir, 'ci%d' % k), 'ci'))
     names, dcmds = ds_plan(v['repo'], ck.tier)
     per = (len(dcmds) + 15) // 16
     djobs = [(h_ds, dcmds[i:i + per], os.path.join(ck.workdir, 'd%d' % (i // per))) for i in range(0, len(dcmds), per)]
-    res = pmap(lambda j: ('x', run_chunk(j)) if len(j) == 3 and isinstance(j[1], list) and j[1] and isinstance(j[1][0], tuple) else ('d', run_ds(j)), jobs + djobs)
+    res = pmap(lambda j: ('x', run_chunk(j)) if j[0] != h_ds else ('d', run_ds(j)), jobs + djobs)
     evals = 0
     outcomes = set()
     samples = []
-    for kind, r in res[:len(jobs)]:
+    for job, (kind, r) in zip(jobs, res[:len(jobs)]):
+        bld = (':build=' + {'nots': 'non_thread_safe', 'ci': 'config_compiled_in'}[job[3]]) if len(job) > 3 else ''
         results, aborts, complete = r
         if not complete:
             ck.capped = True
         for (cfg, ik, ek), rr in aborts:
             head = (cfg or b'(absent)').split(b'\n', 1)[-1][:70].decode('latin-1').replace('\n', '|')
-            ck.violation('C02:abort:input=%s:env=%s:cfg=%s' % (ik, ek, head),
+            ck.violation('C02:abort%s:input=%s:env=%s:cfg=%s' % (bld, ik, ek, head),
                          {'config': (cfg or b'').decode('latin-1')[:1500], 'exec_input': ik, 'environment': ek, 'rc': rr['rc'], 'signal': rr['signal'], 'timed_out': rr['timed_out'],
                           'sanitizer': rr['san'][:1], 'stderr': rr['stderr'][-400:]})
         for (cfg, ik, ek), j in results:
             evals += 1
             outcomes.add((H.fnv(cfg or b'-'), ik, ek, j['logdelta']['len'] > 0, j['devlogdelta']['len'] > 0))
             if j['rec_calls'] != 1 or j['ret'] != -1 or j['errno'] != 2:
-                ck.violation('C02:exec_not_reached_or_result_changed:input=%s' % ik, {'config': (cfg or b'').decode('latin-1')[:800], 'record': {k: j[k] for k in ('rec_calls', 'ret', 'errno')}})
+                ck.violation('C02:exec_not_reached_or_result_changed%s:input=%s' % (bld, ik), {'config': (cfg or b'').decode('latin-1')[:800], 'record': {k: j[k] for k in ('rec_calls', 'ret', 'errno')}})
             if len(samples) < 4 and evals % 4001 == 5:
                 samples.append({'config': (cfg or b'(absent)').decode('latin-1')[:160], 'exec_input': ik, 'environment': ek, 'logged': j['logdelta']['len'] > 0})
     nsizes = 0
